@@ -136,6 +136,12 @@ pub fn has_tag(case: &Case, tag: &str) -> bool {
                 && m.rows.iter().all(|r| r.coefs[j] == 0.0)
         }),
         "no-variables" => m.n() == 0,
+        // some row coefficient of magnitude 4096 or more (the tableau simplex compares
+        // with an absolute tolerance after dividing rows by such pivots)
+        "large-coefficient" => m
+            .rows
+            .iter()
+            .any(|r| r.coefs.iter().any(|c| c.abs() >= 4096.0)),
         // every variable continuous (an LP)
         "continuous" => m.is_continuous(),
         // the equality rows are linearly dependent (exact rank < number of equality rows)
